@@ -115,6 +115,11 @@ fn gen_line(r: &mut Rng, g: &RawGen, lang: &str, dec: &str, rule_heavy: bool, se
         4 => name(r),
         5 => format!("{} = {} {} {}", name(r), name(r), r.pick(&["+", "*", "-"]), g.number(r, dec)),
         6 => rule_line(r, g, dec),
+        7 if r.chance(1, 3) => {
+            // the same (source index, target index, amount) in different families
+            let (a, b) = *r.pick(&[("dam", "m"), ("gb", "mb"), ("dag", "g"), ("mile", "furlong"), ("m", "dm"), ("mb", "kb"), ("g", "dg")]);
+            format!("{} {} to {}", r.pick(&[1u32, 2, 10]), a, b)
+        }
         7 => { let f = r.below(3); match r.below(4) {
             0 => format!("{} fam{}u{} to {}", r.below(64), f, 1 + r.below(4), r.pick(&["mile", "meter", "gram", "inch"])),
             1 => format!("{} {} to {}", 1 + r.below(64), r.pick(&["km", "furlong", "kg", "cm", "yard"]), r.pick(&["mile", "meter", "gram", "inch"])),
